@@ -1,0 +1,14 @@
+//go:build verif
+
+package auth
+
+// govc contracts for this package (see /verif/DESIGN.md). Comment-only.
+
+// twosComplement negates a 20-byte big-endian two's complement integer in place
+// (the SHA-1 digest read as Java's BigInteger).
+//@ func twosComplement(p) (res)
+//@   requires len(p) == 20
+//@   loop 0: unroll 21
+//@   ensures bytes20(res) == -old(bytes20(p))                                        [@value]
+//@   ensures res == p                                                                [@value]
+//@   modifies p[:]                                                                   [@frame]
